@@ -72,6 +72,12 @@ def make_config(rng):
     if hk == "explicit" and "modes" in dom and dom["modes"] != [nx, ny]:
         # truncated modes need the padded size's parity: keep the halo a whole number of cells on both axes -> pad even
         del dom["modes"]
+    if hk == "zero" and rng.random() < 0.3:
+        # a mode request above the grid along one axis and below it along the other (the solver's rule for such a request is its own;
+        # the single run must hand the configured pair through as it is)
+        over_x = bool(rng.random() < 0.5)
+        big, small = (nx if over_x else ny) + 2 * int(rng.integers(1, 30)), int(rng.integers(1, (ny if over_x else nx) // 2)) * 2
+        dom["modes"] = [big, small] if over_x else [small, big]
     lk = str(rng.choice(["default", "output_levels", "full_output", "both_options"]))
     if lk in ("output_levels", "both_options"):
         k = int(rng.integers(1, min(4, nz) + 1))
@@ -144,7 +150,8 @@ def make_config(rng):
         sol["src_loc"] = [float(rng.uniform(0, xmax)), float(rng.uniform(0, ymax))]
     raw = {"domain": dom, "towers": towers, "met": met, "solver": sol}
     return raw, dict(halo=hk, levels=lk, forcing=fk, steps=ns, towers=nt, closure=closure, footprint=fp, analytic=bool(sol.get("analytic")),
-                     precision=sol["precision"], modes="explicit" if "modes" in dom else "default", src_loc="src_loc" in sol)
+                     precision=sol["precision"], modes=("default" if "modes" not in dom else "one_axis_over" if (dom["modes"][0] > nx) != (dom["modes"][1] > ny) else "explicit"),
+                     src_loc="src_loc" in sol)
 
 
 def variants(raw, rng):
